@@ -4,6 +4,7 @@
 From Coq Require Import List NArith Bool Arith Sorted.
 From Coq Require Import Strings.Byte.
 Require Import BS.Bytes BS.Common BS.Api BS.Layout BS.Format BS.FormatFacts BS.Spec BS.SpecStep BS.Sections.
+Require Import BS.World BS.Known BS.Judge BS.JudgeFacts.
 Require Import BS.FS BS.FSFacts BS.Meta BS.MetaFacts BS.Header BS.Reader BS.ReaderFacts BS.Index BS.Data BS.DataFacts BS.Seek BS.SeekFacts BS.Series BS.SeriesFacts BS.ReadAllFacts BS.HeaderFacts BS.OpenFacts BS.CacheFacts BS.CreateFailFacts.
 Import ListNotations.
 
@@ -92,3 +93,19 @@ Theorem C17_stale_cache_no_residue : forall p fs name hdr cb (Bs1 Bs2:list N) (B
   exists fs', series_new name (N.of_nat p) hdr (Bs1 ++ B :: Bs2) cb fs = (fs', Err EExists) /\ forall g, fs_get fs' g = fs_get fs g.
 Proof. exact new_stale_cache. Qed.
 Print Assumptions C17_stale_cache_no_residue.
+
+(* (I refines S, at the level of the public API) REFUSED CALLS INSIDE ANY HISTORY: between a close and the next open of a series
+   that exists, any number of creates of the same name - with ANY payload size and ANY header (the "create, else open" start-up
+   of an application; headers too large for the length field included) - and of opens that demand another payload size than
+   the stored one (JudgeFacts.HRefused / rtry / try_valid), at any point of a history of appends, reads, clean reopens and
+   crashes: the model answers each with an error, the judge accepts it, every file of the model stays byte for byte what the
+   judge expects (nothing is created, removed or altered), and the open that follows continues the same series *)
+Theorem C17_refused_calls_accepted_by_judge : forall (name:list byte) (p:nat) (hdr:list byte),
+  (len (params_to_text BSgen.Consts.version (N.of_nat p) ++ hdr) <= 65535)%N -> (N.of_nat p < 2^64)%N ->
+  forall cb hs, JudgeFacts.hvalid p hdr [] hs ->
+  accepted World.init_world judge_init (ONew name (N.of_nat p) hdr [] cb :: JudgeFacts.flatten name hs).
+Proof. exact history_accepted. Qed.
+Print Assumptions C17_refused_calls_accepted_by_judge.
+Check (fun name p hdr => @new_refused_accepted name p hdr).
+Check (fun name p hdr => @open_other_p_accepted name p hdr).
+Check history_accepted_example.
